@@ -93,6 +93,18 @@ func plumbingOne(w []string) (res string) {
 		plumbRoutingName[bc.Routing], plumbMethodName[m], b, b01(fwl), b01(frx), ls, b01(p.Marshaller.VerifConfig()))
 }
 
+// kafkaTransportConfig: the transport configuration as main.go hands it on - EVERY option of the sink present (its
+// default unless given), so that a factory that starts to read another of its options finds it.
+func kafkaTransportConfig(topic string, maxMsg, batchSize, flushBytes int, method string) map[string]interface{} {
+	return map[string]interface{}{
+		tkafka.ConfVarKafkaTopic: topic, tkafka.ConfVarKafkaMaxMessageBytes: maxMsg, tkafka.ConfVarKafkaBatchSize: batchSize,
+		tkafka.ConfVarKafkaFlushBytes: flushBytes, tkafka.ConfVarKafkaFlushFrequency: 2500, tkafka.ConfVarKafkaRetryMax: 10,
+		tkafka.ConfVarBootstrapHost: "localhost", tkafka.ConfVarBootstrapPort: "9092", tkafka.ConfVarKafkaTls: false,
+		tkafka.ConfVarKafkaClusterCA: "", tkafka.ConfVarKafkaPrivateKey: "", tkafka.ConfVarKafkaPublicKey: "",
+		tkafka.ConfVarKafkaVerifyProducer: false, tkafka.ConfVarKafkaPartitionMethod: method, config.VAR_NAME_WORKERS: 1,
+	}
+}
+
 // plumbing factory <kind> <batchSize> <maxMsgBytes> <flushBytes>: the batch factory a sink's options configure, probed
 // from outside: how many small records make a batch full, and (Kafka) whether a record certainly above / certainly
 // below the configured per-message limit is refused / accepted.
@@ -108,9 +120,7 @@ func plumbingFactory(w []string) (res string) {
 	var f transport.BatchFactory
 	switch w[2] {
 	case "kafka":
-		f = tkafka.NewBatchFactory(map[string]interface{}{tkafka.ConfVarKafkaTopic: "t", tkafka.ConfVarKafkaMaxMessageBytes: maxMsg,
-			tkafka.ConfVarKafkaBatchSize: size, tkafka.ConfVarKafkaFlushBytes: flush, tkafka.ConfVarKafkaPartitionMethod: "random",
-			config.VAR_NAME_WORKERS: 1})
+		f = tkafka.NewBatchFactory(kafkaTransportConfig("t", maxMsg, size, flush, "random"))
 	case "s3":
 		f = ts3.NewBatchFactory(map[string]interface{}{ts3.ConfVarPutBatchSize: size, config.VAR_NAME_WORKERS: 1})
 	case "rabbitmq":
